@@ -1496,7 +1496,7 @@ fn main() {
             _ => {
                 let mut f = 0u32;
                 for (bit, den) in [(0x2000u32, 3u64), (0x0400, 2), (0x0100, 4), (0x0800, 5), (0x0002, 8), (0x0001, 8),
-                                   (0x0010, 8), (0x0040, 10), (0x0200, 10), (0x0008, 10), (0x1000, 6)] {
+                                   (0x0010, 8), (0x0040, 10), (0x0200, 10), (0x0008, 10), (0x1000, 6), (0x0020, 4)] {
                     if r.chance(1, den) {
                         f |= bit;
                     }
@@ -1564,7 +1564,16 @@ fn main() {
                     "C02" | "C07" if pg.r.chance(1, 6) => pg.guard(depth),
                     "C31" | "C08" => {
                         let g = pg.guard(depth);
-                        if pg.r.chance(1, 2) { list_json(&[atom_json(&[4]), g, pg.expr(1)]) } else { g }
+                        match pg.r.below(6) {
+                            0 | 1 | 2 => list_json(&[atom_json(&[4]), g, pg.expr(1)]),
+                            // the guard underneath an operator that is a GC candidate (a, strlen, +)
+                            3 => match pg.r.below(3) {
+                                0 => list_json(&[atom_json(&[2]), q(g), atom_json(&[1])]),
+                                1 => list_json(&[atom_json(&[13]), g]),
+                                _ => list_json(&[atom_json(&[16]), g, q(int_atom(1))]),
+                            },
+                            _ => g,
+                        }
                     }
                     _ => pg.expr(depth),
                 };
